@@ -837,6 +837,7 @@ func (c *c11Case) compare() {
 		extra[pos{1, row}] = extra[pos{1, row}] || probe[pos{1, row}] == nil
 	}
 	n := 0
+	abort := false
 	check := func(p pos, cc *c11Cell) {
 		name, _ := xl.CoordinatesToCellName(p.c, p.r)
 		n++
@@ -849,6 +850,7 @@ func (c *c11Case) compare() {
 		sk, mk := c11kind(sg, name), c11kind(mg, name)
 		if se != nil || me != nil {
 			c.fail("cell:read-error", fmt.Sprintf("%s: stream %v, in-memory %v", name, se, me), 0)
+			abort = true // an unreadable worksheet is re-parsed by every getter: stop here
 			return
 		}
 		if sf != mfm {
@@ -902,12 +904,15 @@ func (c *c11Case) compare() {
 		if i >= limit {
 			break
 		}
-		if c.failed && i > 200 {
+		if (c.failed && i > 200) || abort {
 			break
 		}
 		check(p, probe[p])
 	}
 	r.Stats["cells-compared"] += n
+	if abort {
+		return
+	}
 	// row attributes
 	for _, row := range c.rowsSeen {
 		h1, _ := sg.GetRowHeight(c11Sheet, row)
@@ -1283,7 +1288,7 @@ func c11genCase(rng *Rng, kind string) []string {
 		case rng.Chance(80):
 			row += rng.Range(2, 9)
 		default:
-			row += rng.Pick2([]int{1000, 1000, 3000, 1000, 1000, 500, 2000, 65536})
+			row += rng.Pick2([]int{1000, 1000, 3000, 1000, 1000, 500, 2000, 20000})
 		}
 		if i == nRows-1 && rng.Intn(150) == 0 {
 			row = 1048576
@@ -1448,7 +1453,7 @@ func runC11(r *Run, rng *Rng, replay string) {
 	}
 	nModel, nRich, nTable := 260, 110, 12
 	if thorough {
-		nModel, nRich, nTable = 3000, 1500, 100
+		nModel, nRich, nTable = 2000, 1000, 60
 	}
 	for i := 0; i < nModel; i++ {
 		c11RunCase(r, c11genCase(rng, "model"))
